@@ -14,6 +14,8 @@ def cases(draw, procs=False):
     spec = draw(gen.worlds(max_layers=4, min_layers=1 if procs else 0, hooks='layer', faults=faults,
                            nie=0, kinds=gen.ALL_KINDS, max_modules=2, depth=1, max_tests=4,
                            weights_good=45, layer_decl=80, explicit_unit=True, max_children=3, sub_skip=True))
+    if draw(st.integers(0, 2 if procs else 5)) == 0:
+        spec = draw(gen.shaped_world(kinds=gen.ALL_KINDS, nie=False))
     for L in spec['layers']:
         if draw(st.integers(0, 99)) < 50:
             L['hooks'] = sorted(set(L['hooks']) | {'setUp', 'tearDown'}, key=gen.HOOKS.index)
@@ -192,7 +194,7 @@ class InProc(Part):
 class Procs(Part):
     """the same world sequentially and with -j N / resumed layers: each run against the trace, totals against each other"""
     name = 'procs'
-    examples = {'quick': 64, 'thorough': 1500}
+    examples = {'quick': 192, 'thorough': 3000}
 
     def strategy(self, tier):
         return cases(procs=True)
@@ -219,7 +221,9 @@ class Procs(Part):
         par = drive.run_inproc(spec2, common.args_of(o2), disk=True)
         v2, tot_par = oracle(spec2, o2, par, tag='/' + mode)
         viol += v2
-        nofault = not any(L.get('faults') for L in base['layers'])
+        # a failing tearDown of a base layer is, by design, counted once per process that had set the layer up; a failing
+        # setUp is attempted (and counted) once per dependent layer in every mode
+        nofault = not any('tearDown' in (L.get('faults') or {}) for L in base['layers'])
         if nofault and tot_seq and tot_par and tot_seq[0] and tot_par[0] and tot_seq[0] != tot_par[0]:
             viol.append(('C12/totals-differ-between-modes/' + mode, 'sequential Total %s, %s Total %s'
                          % (tot_seq[0], mode, tot_par[0])))
